@@ -18,7 +18,7 @@ from vlib import Run, zlit, coq_list, coq_bool, coq_string, coq_opt
 import translate_splits
 
 warnings.simplefilter("ignore")
-IMPORTS = "From Coq Require Import QArith.\nFrom V Require Import Model.Splits Model.SplitsRun."
+IMPORTS = "From Coq Require Import QArith.\nFrom V Require Import Model.Splits Model.SplitsCal Model.SplitsRun."
 
 MONTHS = ["january", "february", "march", "april", "may", "june", "july", "august", "september", "october",
           "november", "december"]
@@ -112,6 +112,30 @@ def read_split(text):
             return None
         out.append((comp, DAYCLASS_OF_KEY[comp[:2]], [SEASON_OF_KEY[s] for s in seasons]))
     return out
+
+
+def day_cause(sname, dname):
+    return ("season name outside summer/shoulder/winter" if sname not in SEASON_OF_KEY.values()
+            else "day name outside weekday/weekend" if dname not in ("weekday", "weekend") else "standard names")
+
+
+def maps_cause(season, week):
+    return ("season name outside summer/shoulder/winter" if any(s not in SEASON_OF_KEY.values() for s in season)
+            else "day name outside weekday/weekend" if any(d not in ("weekday", "weekend") for d in week) else "standard names")
+
+
+def build_model(run, DailyModel, settings, season, week, stream):
+    """DailyModel(settings) ; maps with names outside the hard-wired ones may be refused at construction (that is the
+    repair proposed for C13-F1/F2): such a configuration then has no days to route -> None.  A refusal of maps that use
+    the standard names only is not expected: it propagates (harness alarm)."""
+    try:
+        return DailyModel(settings=settings)
+    except Exception as e:  # noqa
+        if maps_cause(season, week) == "standard names":
+            raise
+        run.count((stream, "maps refused at construction", tuple(season), tuple(week)), nontrivial=False)
+        run.dist("maps with foreign names", "refused at construction (%s)" % type(e).__name__)
+        return None
 
 
 CELLS = [(s, d) for s in ("summer", "shoulder", "winter") for d in ("weekday", "weekend")]
@@ -223,7 +247,9 @@ def stream_trim(run, info, DailyModel, ellipsoid_split_filter, only=None):
     used = set()
     for (mname, season, week) in maps:
         for sname, dates in scen:
-            if not run.quick() or mname in ("default", "southern", "no-summer") or sname in ("two-years", "few-weekends", "summer-29", "summer-we-7"):
+            if (not run.quick() or (mname == "default" and not sname.startswith("random"))
+                    or (mname in ("southern", "no-summer") and sname in ("two-years", "one-year", "few-weekends", "no-jun-sep", "40-days"))
+                    or sname in ("summer-29", "summer-we-7")):
                 flagsets = allflags
             else:
                 flagsets = [allflags[0], allflags[rng_f.randrange(16)], allflags[rng_f.randrange(16)]]
@@ -231,7 +257,9 @@ def stream_trim(run, info, DailyModel, ellipsoid_split_filter, only=None):
                 if only.get("maps") != mname or only.get("dates") != sname:
                     continue
                 flagsets = [tuple(only["flags"])]
-            proto = DailyModel(settings=settings_for(season, week))
+            proto = build_model(run, DailyModel, settings_for(season, week), season, week, "trim")
+            if proto is None:
+                continue
             df_meter, _ = proto._initialize_data(frame_for(dates))
             hname = "h_%s_%s" % (mname.replace("-", "_"), sname.replace("-", "_"))
             for flags in flagsets:
@@ -328,9 +356,7 @@ def route_oracle(run, keys, season, week, dates, per, nrows, case, intercepts):
     for d in dates:
         rows = per.get(d, [])
         sname, dname = season[d.month - 1], week[d.isoweekday() - 1]
-        cause = ("season name outside summer/shoulder/winter" if sname not in SEASON_OF_KEY.values()
-                 else "day name outside weekday/weekend" if dname not in ("weekday", "weekend") else "standard names")
-        sig0 = {"call": "DailyModel.predict", "maps": cause}
+        sig0 = {"call": "DailyModel.predict", "maps": day_cause(sname, dname)}
         got = [r for r in rows if r[0] is not None]
         if len(got) == 0:
             report(dict(sig0, broken="day predicted by no sub-model"),
@@ -366,7 +392,11 @@ def stream_route(run, info, DailyModel, DailyReportingData, only=None):
     for mname, season, week in map_variants():
         st = settings_for(season, week)
         st.pop("developer_mode"); st.pop("silent_developer_mode"); st.pop("split_selection")
-        settings = DailyModel(settings=st).settings.model_dump()
+        proto = build_model(run, DailyModel, st, season, week, "route")
+        if proto is None:
+            continue
+        run.dist("maps with foreign names", "accepted" if maps_cause(season, week) != "standard names" else "standard")
+        settings = proto.settings.model_dump()
         std_maps = all(s in translate_splits.SEASON_NAMES for s in season) and all(d in translate_splits.DAY_NAMES for d in week)
         use = docs + (extra if mname == "default" else [])
         if not std_maps:
@@ -415,6 +445,7 @@ def stream_route(run, info, DailyModel, DailyReportingData, only=None):
 # ------------------------------------------------------------------ stream C: _best_combination vs best
 
 def xr(v):
+    """binary64 -> the model's extended rational, written as mantissa * 2^exponent (small literals)"""
     v = float(v)
     if v != v:
         return "XNaN"
@@ -422,8 +453,14 @@ def xr(v):
         return "XPosInf"
     if v == -math.inf:
         return "XNegInf"
-    fr = Fraction(v)
-    return "(XFin (%s # %d))" % (("(%d)" % fr.numerator) if fr.numerator < 0 else str(fr.numerator), fr.denominator)
+    m, e = math.frexp(v)               # v = m * 2**e, 0.5 <= |m| < 1  (exact)
+    mi = int(m * (1 << 53))            # exact: m has at most 53 significant bits
+    e -= 53
+    while mi and mi % 2 == 0:
+        mi //= 2
+        e += 1
+    assert math.ldexp(mi, e) == v
+    return "(xdy %s %s)" % (zlit(mi), zlit(e if mi else 0))
 
 
 def best_oracle(run, table, chosen, case, generator):
@@ -465,7 +502,7 @@ def stream_best_stub(run, info, DailyModel, only=None):
     terms, meta = [], []
     pool = info["all_splits"]
     specials = [float("nan"), math.inf, -math.inf, 0.0, -0.0, 1.5, -3.25, 1e-300, -1e300, 5e-324]
-    n = run.n(1500, 40000)
+    n = run.n(600, 20000)
     calls = {"n": 0}
     for k in range(n):
         ln = rng.choice([1, 2, 3, 5, 8, 20, len(pool)])
@@ -551,7 +588,13 @@ def fit_worker(job):
     df = fit_dataset(seed, kind)
     res = {"seed": seed, "kind": kind, "settings": settings, "fit_error": None}
     bd = DailyBaselineData(df, is_electricity_data=True)
-    m = DailyModel(settings=settings)
+    try:
+        m = DailyModel(settings=settings)
+    except Exception as e:  # noqa
+        res["construction_error"] = "%s: %s" % (type(e).__name__, str(e)[:300])
+        return res
+    res["season_map"] = [m.settings.season._num_dict[i] for i in range(1, 13)]
+    res["week_map"] = [m.settings.weekday_weekend._num_dict[i] for i in range(1, 8)]
     try:
         m.fit(bd, ignore_disqualification=True)
     except Exception as e:  # noqa
@@ -596,8 +639,11 @@ def fit_worker(job):
         res["submodel_keys"] = list(m.params.submodels.keys())
         out = m.predict(bd, ignore_disqualification=True)
         rows = []
-        for ts, ms, pred, T in zip(out.index, out["model_split"].values, out["predicted"].values, out["temperature"].values):
-            rows.append([[ts.year, ts.month, ts.day], None if ms != ms else str(ms), None if pred != pred else float(pred)])
+        obs = out["observed"].values if "observed" in out.columns else np.zeros(len(out))
+        for ts, ms, pred, T, y in zip(out.index, out["model_split"].values, out["predicted"].values, out["temperature"].values, obs):
+            complete = bool(np.isfinite(T)) and bool(np.isfinite(y))     # otherwise the row is passed through unpredicted (C07's subject)
+            rows.append([[ts.year, ts.month, ts.day], None if (ms is None or ms != ms) else str(ms),
+                         None if pred != pred else float(pred), complete])
         res["rows"] = rows
         # each sub-model evaluated on its own on the whole temperature series, to attribute predictions
         per = {}
@@ -612,7 +658,8 @@ def fit_worker(job):
     return res
 
 
-def stream_fits(run, info, only=None):
+def launch_fits(run, only=None):
+    """start the real fits in worker processes; the other streams run meanwhile"""
     kinds = ["plain", "wdwe", "season", "both", "winter", "gappy"]
     jobs = []
     n = run.n(4, 200)
@@ -624,16 +671,38 @@ def stream_fits(run, info, only=None):
             settings = {"developer_mode": True, "silent_developer_mode": True,
                         "split_selection": {"allow_separate_shoulder": False, "allow_separate_weekday_weekend": k % 10 == 0}}
         jobs.append((base + k, kind, settings))
+    # maps with names outside the hard-wired ones, end to end and without developer mode (C13-F1, F2, F3)
+    foreign = [("plain", {"season": {"july": "monsoon", "options": ["summer", "shoulder", "winter", "monsoon"]}}),
+               ("wdwe", {"weekday_weekend": {"friday": "holiday", "options": ["weekday", "weekend", "holiday"]}}),
+               ("plain", {"season": dict({mth: ("hot" if 5 <= i <= 8 else "cold") for i, mth in enumerate(MONTHS)},
+                                         options=["hot", "cold"])})]
+    for k, (kind, settings) in enumerate(foreign):
+        jobs.append((base + 500 + k, kind, settings))
     if only is not None:
         jobs = [(only["dataset"]["seed"], only["dataset"]["kind"], only.get("settings"))]
-    with ProcessPoolExecutor(max_workers=min(16, len(jobs))) as ex:
-        results = list(ex.map(fit_worker, jobs))
+    ex = ProcessPoolExecutor(max_workers=min(12, len(jobs)))
+    return ex, [ex.submit(fit_worker, j) for j in jobs]
+
+
+def stream_fits(run, info, only=None, handle=None):
+    ex, futures = handle if handle is not None else launch_fits(run, only)
+    results = [f.result() for f in futures]
+    ex.shutdown()
     trim_terms, route_terms, best_terms = [], [], []
     for res in results:
         case = {"dataset": {"seed": res["seed"], "kind": res["kind"], "generator": "c13.fit_dataset"}, "settings": res["settings"]}
         run.count(("fit", res["seed"], res["kind"], json.dumps(res["settings"], sort_keys=True)), nontrivial=True)
+        if "construction_error" in res:
+            st = res["settings"] or {}
+            names = set((st.get("season") or {}).get("options", [])) | set((st.get("weekday_weekend") or {}).get("options", []))
+            if names - {"summer", "shoulder", "winter", "weekday", "weekend"}:
+                run.dist("maps with foreign names", "refused at construction (fit stream)")
+                continue                          # the proposed repair of C13-F1/F2/F3: nothing to route
+            raise RuntimeError("DailyModel(settings=%r) refused: %s" % (st, res["construction_error"]))
+        mcause = maps_cause(res["season_map"], res["week_map"])
         if "combinations" not in res:
-            run.violation({"call": "DailyModel.fit", "broken": "raised before the candidates were built"},
+            run.violation({"call": "DailyModel.fit", "broken": "raised", "raised": str(res["fit_error"]).split(":")[0], "maps": mcause,
+                           "stage": "before the candidates were selected"},
                           "C13 fit raised %s" % res["fit_error"], case=case, generator="c13.fit")
             continue
         combos = res["combinations"]
@@ -648,7 +717,8 @@ def stream_fits(run, info, only=None):
         else:
             best_oracle(run, table, chosen, dict(case, criteria=[[a, repr(b)] for a, b in table]), "c13.fit")
         if res["fit_error"] is not None:
-            run.violation({"call": "DailyModel.fit", "broken": "raised", "selected": repr(chosen)},
+            run.violation({"call": "DailyModel.fit", "broken": "raised", "raised": str(res["fit_error"]).split(":")[0], "maps": mcause,
+                           "stage": "after the candidates were built", "selected": repr(chosen)},
                           "C13 fit raised %s (candidates %d, _best_combination -> %r)" % (res["fit_error"], len(combos), chosen),
                           case=case, generator="c13.fit")
         else:
@@ -674,27 +744,37 @@ def stream_fits(run, info, only=None):
             # routing of the fitted model on its own baseline
             keys = res["submodel_keys"]
             per, cells = {}, {}
-            for i, (d, ms, pred) in enumerate(res["rows"]):
-                per.setdefault(datetime.date(*d), []).append((ms, pred, i))
+            for i, (d, ms, pred, complete) in enumerate(res["rows"]):
+                per.setdefault(datetime.date(*d), []).append((ms, pred, i, complete))
             comps = read_split("__".join(keys))
+            reported = set()
             for d, rows in sorted(per.items()):
+                sname, dname = res["season_map"][d.month - 1], res["week_map"][d.isoweekday() - 1]
+                sig0 = {"call": "DailyModel.predict", "maps": day_cause(sname, dname)}
                 if len(rows) != 1:
-                    run.violation({"call": "DailyModel.predict", "broken": "day predicted more than once", "maps": "standard names"},
+                    run.violation(dict(sig0, broken="day predicted more than once"),
                                   "C13 fitted model predicts %s %d times" % (d, len(rows)), case=dict(case, date=str(d)), generator="c13.fit")
                     continue
-                ms, pred, i = rows[0]
-                if pred is None and ms is None:
+                ms, pred, i, complete = rows[0]
+                if not complete:
                     continue        # rows without temperature/observed are passed through unpredicted (C07's subject)
-                sname, dname = res["season_map"][d.month - 1], res["week_map"][d.isoweekday() - 1]
+                if ms is None:
+                    cells.setdefault((d.month, d.isoweekday()), [])
+                    if sig0["maps"] not in reported:
+                        reported.add(sig0["maps"])
+                        run.violation(dict(sig0, broken="day predicted by no sub-model"),
+                                      "C13 fitted model (%s): %s (%s, %s) is predicted by no sub-model" % ("__".join(keys), d, sname, dname),
+                                      case=dict(case, date=str(d)), generator="c13.fit")
+                    continue
                 owners = [c for c, days, seasons in comps if sname in seasons and dname in days]
                 if owners != [ms]:
-                    run.violation({"call": "DailyModel.predict", "broken": "wrong sub-model", "maps": "standard names"},
+                    run.violation(dict(sig0, broken="wrong sub-model"),
                                   "C13 fitted model: %s (%s, %s) predicted by %s, cell belongs to %s" % (d, sname, dname, ms, owners),
                                   case=dict(case, date=str(d)), generator="c13.fit")
                     break
                 want = res["per_submodel"][ms][i]
                 if want is None or pred is None or abs(want - pred) > 1e-9 * max(1.0, abs(want)):
-                    run.violation({"call": "DailyModel.predict", "broken": "model_split label and prediction differ", "maps": "standard names"},
+                    run.violation(dict(sig0, broken="model_split label and prediction differ"),
                                   "C13 fitted model: %s labelled %s, predicted %r, that sub-model gives %r" % (d, ms, pred, want),
                                   case=dict(case, date=str(d)), generator="c13.fit")
                     break
@@ -714,6 +794,40 @@ def stream_fits(run, info, only=None):
         run.sample({"stream": "fit", "dataset": case["dataset"], "n_candidates": len(combos), "selected": chosen,
                     "criterion": dict(table).get(chosen), "ellipsoid_filter": res["gauss"]})
     return trim_terms, route_terms, best_terms
+
+
+# ------------------------------------------------------------------ stream E: the calendar (date -> month, weekday)
+
+def stream_calendar(run):
+    """what _initialize_data reads (index.month, index.dayofweek + 1) on tz-aware daily rows, for every day 1970-2100,
+    against CPython's proleptic Gregorian calendar; the month runs are then compared with Model/SplitsCal.v in Coq"""
+    tz = "America/New_York"
+    idx = pd.date_range("1970-01-01", "2100-12-31", freq="D", tz=tz)
+    frame = pd.DataFrame({"temperature": 50.0}, index=idx)
+    month = frame.index.month.values                 # the two expressions of daily/model.py:513-514
+    dow = (frame.index.dayofweek + 1).values
+    year, dom = idx.year.values, idx.day.values
+    epoch = datetime.date(1970, 1, 1).toordinal()
+    runs, terms = [], []
+    bad = None
+    for i in range(len(idx)):
+        d = datetime.date.fromordinal(epoch + i)
+        if (d.year, d.month, d.day, d.isoweekday()) != (int(year[i]), int(month[i]), int(dom[i]), int(dow[i])):
+            bad = bad or (i, str(d), (int(year[i]), int(month[i]), int(dom[i]), int(dow[i])))
+        if d.day == 1 or not runs:
+            runs.append([i, 0, d.year, d.month, d.isoweekday()])
+        runs[-1][1] += 1
+    run.count(("calendar", len(idx)), nontrivial=True)
+    run.dist("calendar: days compared (pandas vs CPython vs model)", len(idx))
+    if bad is not None:
+        run.corr_failures.append({"stream": "calendar", "case": {"day_number": bad[0], "cpython": bad[1]},
+                                  "impl": "pandas index gives (year, month, day, weekday) = %r" % (bad[2],),
+                                  "model": "CPython datetime.date disagrees with pandas"})
+    for k in range(0, len(runs), 120):
+        terms.append(coq_list(["(%s, %s, %s, %s, %s)" % tuple(zlit(x) for x in r) for r in runs[k:k + 121]]))
+    metas = [{"runs": "%d..%d" % (k, k + 120), "first_day": runs[k][0]} for k in range(0, len(runs), 120)]
+    run.sample({"stream": "calendar", "month_runs": runs[600:603], "meaning": "[first day number, days, year, month, ISO weekday of the first day]"})
+    return terms, metas
 
 
 # ------------------------------------------------------------------ the regenerated list: concrete search
@@ -742,8 +856,9 @@ def check_generated(run, info):
     return ok
 
 
-CASE_TYPE = {"check_trim": "trim_case", "check_route": "route_case", "check_route_parsed": "route_case",
-             "check_best": "best_case"}
+CANDS_PRELUDE = "Definition cands : list split := Eval vm_compute in (candidates gen_opts).\n"
+CASE_TYPE = {"(check_trim_with cands)": "trim_case", "check_route_both": "route_case", "check_trim": "trim_case", "check_route": "route_case", "check_route_parsed": "route_case",
+             "check_best": "best_case", "check_calendar": "list month_run"}
 
 
 def run_cases(run, stream, terms, metas, check_fn, prelude="", shard=300):
@@ -768,7 +883,8 @@ def main():
         "(incl. the 29/30-day and 7/8-weekend-day boundaries) x the 16 allow-flag combinations, plus Gaussian-reduction cases with "
         "the ellipsoid outcome as oracle input; route: predict()['model_split'] of DailyModel.from_dict documents for every "
         "generated split x 8 maps over all 731 dates of 2023-2024 (+ two non-partition documents); best: the real "
-        "_best_combination on synthetic criteria tables (random / ties / NaN / +-inf); fit: real fits on synthetic meters. "
+        "_best_combination on synthetic criteria tables (random / ties / NaN / +-inf); fit: real fits on synthetic meters "
+        "(+ three with season/weekday names outside the hard-wired ones, end to end); calendar: every day 1970-2100. "
         "distinct = (stream, split, maps, dates, flags) resp. table hash; non-trivial = more than one component / more than 3 days / "
         "a table with at least two entries and one number")
     run.assumptions += [
@@ -777,8 +893,10 @@ def main():
         "the Gaussian (ellipsoid) reduction is an oracle: its four booleans are inputs of the model",
         "the selection criterion is a number computed by selection_criteria(); the theorem about the choice holds for any "
         "criterion values (exact binary64 values as extended rationals); the formula itself is only recomputed in Python",
-        "routing depends on a date only through (month, ISO weekday); pandas' index.month / dayofweek are compared with "
-        "CPython's datetime on every date of 2023-2024",
+        "routing depends on a date only through (month, ISO weekday) of its local civil date: the route stream observes "
+        "that all dates of one (month, weekday) cell are routed alike over 2023-2024; the calendar stream compares pandas' "
+        "index.month / dayofweek+1 with CPython and with Model/SplitsCal.v for every day 1970-2100 (one time zone); the "
+        "date-level theorem then holds for every integer day number",
         "correspondence is sampled except where stated exhaustive (all generated splits, all 16 flag combinations)",
     ]
     run.cov["trusted_base"] += ["harness/c13.py (generators, adapters, literal oracles)", "harness/translate_splits.py",
@@ -800,7 +918,7 @@ def main():
         run.cov["exhaustive"] = False     # the finite parts below are enumerated completely; fits / criteria tables / date sets are sampled
         run.cov["exhaustive_over"] = ["all %d regenerated candidate splits (exact cover: vm_compute theorem + Python oracle)" % len(info["all_splits"]),
                                  "all 16 allow-flag combinations on the main maps/date sets", "all 731 dates of 2023 and 2024"]
-    ok_models = info is not None and run.ensure_models(["Model/SplitsRun.v", "Model/CasesLib.v"])
+    ok_models = info is not None and run.ensure_models(["Model/SplitsRun.v", "Model/SplitsCal.v", "Model/CasesLib.v"])
     run.log("theorems re-checked: %s" % run.proof_ok)
     if info is not None:
         from opendsm.eemeter.models.daily.model import DailyModel
@@ -809,22 +927,28 @@ def main():
         if run.replay:
             replay(run, info, DailyModel, DailyReportingData, ellipsoid_split_filter)
         else:
-            fits = stream_fits(run, info)
-            run.log("fits done: %d" % len(fits[0]))
+            handle = launch_fits(run)
             t_terms, t_meta, t_prelude = stream_trim(run, info, DailyModel, ellipsoid_split_filter)
             run.log("trim stream done: %d cases" % len(t_terms))
             r_terms, r_meta = stream_route(run, info, DailyModel, DailyReportingData)
             run.log("route stream done: %d cases" % len(r_terms))
             b_terms, b_meta = stream_best_stub(run, info, DailyModel)
             run.log("best stream done: %d cases" % len(b_terms))
+            c_terms, c_meta = stream_calendar(run)
+            run.log("calendar stream done: %d cases" % len(c_terms))
+            fits = stream_fits(run, info, handle=handle)
+            run.log("fits done: %d" % len(fits[0]))
             t_terms += [t for t, _ in fits[0]]; t_meta += [c for _, c in fits[0]]
             r_terms += [t for t, _ in fits[1]]; r_meta += [c for _, c in fits[1]]
             b_terms += [t for t, _ in fits[2]]; b_meta += [c for _, c in fits[2]]
             if ok_models:
-                run_cases(run, "trim", t_terms, t_meta, "check_trim", t_prelude, shard=150)
-                run_cases(run, "route", r_terms, r_meta, "check_route", shard=60)
-                run_cases(run, "route_parsed", r_terms, r_meta, "check_route_parsed", shard=60)
+                # the candidate list of the model is evaluated once per cases file (it is the same term in every case)
+                t_prelude = CANDS_PRELUDE + t_prelude
+                run_cases(run, "trim", t_terms, t_meta, "(check_trim_with cands)", t_prelude, shard=150)
+                # both readings of a key text: character slices as _meter_segment does, and the structured parser
+                run_cases(run, "route", r_terms, r_meta, "check_route_both", shard=60)
                 run_cases(run, "best", b_terms, b_meta, "check_best", shard=250)
+                run_cases(run, "calendar", c_terms, c_meta, "check_calendar", shard=4)
     run.finish()
 
 
